@@ -21,11 +21,11 @@ Definition dtype_eqb (a b : dtype_name) : bool :=
 
 (* type(index): the four supported index classes, any other pd.Index subclass (TimedeltaIndex,
    MultiIndex, ...), or a numpy array handed over in place of an index *)
-Inductive ixkind := KInt64 | KRange | KPeriod | KDatetime | KOther | KNdarray.
+Inductive ixkind := KInt64 | KRange | KPeriod | KDatetime | KOtherIndex | KNdarray.
 Definition ixkind_eqb (a b : ixkind) : bool :=
   match a, b with
   | KInt64, KInt64 | KRange, KRange | KPeriod, KPeriod | KDatetime, KDatetime
-  | KOther, KOther | KNdarray, KNdarray => true
+  | KOtherIndex, KOtherIndex | KNdarray, KNdarray => true
   | _, _ => false
   end.
 
